@@ -251,7 +251,9 @@ func TestSevEsResetBlock(t *testing.T) {
 	guid := bytes.Repeat([]byte{7}, 16)
 	for _, size := range []uint32{0xFFFF, 0x10000, 0x10016, 0xFFFF0000, 0xFFFFFFFF} {
 		buf := make([]byte, 22)
-		err, pan := call(func() error { return oabi.PutSevEsResetBlock(buf, &opb.SevEsResetBlock{Addr: 1, Size: size, Guid: guid}) })
+		err, pan := call(func() error {
+			return oabi.PutSevEsResetBlock(buf, &opb.SevEsResetBlock{Addr: 1, Size: size, Guid: guid})
+		})
 		switch {
 		case pan != nil:
 			ev.Violation(t, "C18/encode-panic/abi/resetblock", "Size=%#x panicked: %v", size, pan)
@@ -480,6 +482,7 @@ func TestTDXMetadata(t *testing.T) {
 				b[p] = rapid.Byte().Draw(t, "x")
 			}
 		}
+		b = exact(b)
 		checkTDXBytes(t, b, func(class string) {
 			ev.Case(name, true, "bytes/"+edit+"/"+class, "bytes/"+edit+"/"+class, func() any { return map[string]any{"edit": edit, "len": len(b)} })
 		})
